@@ -146,6 +146,7 @@ Theorem open_conn_inv : forall c st a i inb usefd ep,
   cfg_ok c -> Inv c (scopes st) a -> hget (holders a) (Conn i) = None ->
   let '(st', cls) := open_conn c st i inb usefd ep in
   let al := match nget (conns st') i with Some ci => ci_allow ci | None => false end in
+  (cls = 0 -> al = true -> ep_allowed c ep = true) /\
   Inv c (scopes st')
       (if cls =? 0
        then mkAstate (hset (holders a) (Conn i) (mkHolder (conn_vec inb usefd) (conn_par al) [] false))
@@ -154,7 +155,7 @@ Theorem open_conn_inv : forall c st a i inb usefd ep,
 Proof.
   intros c st a i inb usefd ep LO I Hf. unfold open_conn.
   destruct (match ep with Some a0 => match limiter_add c (lims st) a0 with Some l => Some l | None => None end
-                        | None => Some (lims st) end) as [l|]; [|exact I].
+                        | None => Some (lims st) end) as [l|]; [|split; [discriminate | exact I]].
   destruct (I_base c _ a I) as (B1 & B2 & B3 & B4).
   (* first attempt: transient + system *)
   unfold new_scope at 1.
@@ -174,8 +175,8 @@ Proof.
                 (get_set_same mb (Conn i) sc0) Logic.I (conn_vec_mem inb usefd) eq_refl).
   destruct (scope_reserve (set mb (Conn i) sc0) (Conn i) k) as [m1 e1].
   destruct e1 as [e1|].
-  2:{ cbn [scopes conns with_scopes]. rewrite nget_nset_same. cbn [ci_allow]. exact H. }
-  destruct (match ep with Some a0 => allowed c a0 | None => false end).
+  2:{ cbn [scopes conns with_scopes]. rewrite nget_nset_same. cbn [ci_allow]. split; [discriminate | exact H]. }
+  destruct (match ep with Some a0 => allowed c a0 | None => false end) eqn:R.
   - (* retry through the allow-listed scopes *)
     cbn [scopes conns streams lims with_scopes].
     set (md := scope_done m1 (Conn i)) in *.
@@ -197,7 +198,9 @@ Proof.
         rewrite increfs_use. unfold use_of. rewrite get_remove_other by exact Hne. reflexivity. }
     specialize (H2 Oth (get_set_same _ (Conn i) sc1) Logic.I (conn_vec_mem inb usefd) eq_refl).
     destruct (scope_reserve m3 (Conn i) k) as [m4 e4]. destruct e4 as [e4|].
-    + rewrite conn_done_scopes. cbn [scopes]. rewrite ecode_some. exact H2.
-    + cbn [scopes conns]. rewrite nget_nset_same. cbn [ci_allow]. exact H2.
-  - rewrite conn_done_scopes. cbn [scopes with_scopes]. rewrite ecode_some. exact H.
+    + rewrite conn_done_scopes. cbn [scopes]. rewrite ecode_some.
+      split; [intros X; destruct e4; discriminate | exact H2].
+    + cbn [scopes conns]. rewrite nget_nset_same. cbn [ci_allow]. split; [intros _ _; exact R | exact H2].
+  - rewrite conn_done_scopes. cbn [scopes with_scopes]. rewrite ecode_some.
+    split; [intros X; destruct e1; discriminate | exact H].
 Qed.
